@@ -1133,7 +1133,7 @@ func (e *Engine) doIterAudit(s *slot, op Op) error {
 	es := s.model.Sorted()
 	n := len(es)
 	for _, m := range []string{"all", "backward", "topk", "bottomk", "prefix", "range"} {
-		o := Op{T: op.T, Op: "iter", M: m, Stop: n / 2, Re: 2, Btw: 1, In: []int{-1, 2}[n%2], N: uint64(n/2 + 1), Note: "audit"}
+		o := Op{T: op.T, Op: "iter", M: m, Stop: n / 2, Re: 2, Btw: 3, In: []int{-1, 2}[n%2], N: uint64(n/2 + 1), Note: "audit"}
 		switch m {
 		case "prefix":
 			if !s.kind.HasPrefix() || n == 0 {
